@@ -11,10 +11,17 @@ Tie: the extracted mirror and the implementation are run on the same chunked tex
 and must print identical answers for every byte offset, every boundary and every
 boundary span; the formatter is run (release and overflow-checked debug harness) on
 every small text x every boundary span and compared with the mirror's rendered rows.
+Extension (checks/c19_ext.py; theories/C19/Fed*.v): format_conflicts on Eco grammars whose conflicts
+name productions the grammar adds (no panic, positions and rows = mirror at the spans the grammar
+reports); the precondition of the lexer-level queries (LRNonStreamingLexer::new with a cache fed
+another text: C19_lexer_line_col_unfed_panics, tied by the N/P cases); the in-tree example programs
+built from /repo's working tree and fed erroneous stdin (no panic, printed positions = model).
 """
+import concurrent.futures
 import itertools
 import os
 from vlib import core
+from checks import c19_ext
 
 # Which variant of the SpannedDiagnosticFormatter mirror (coq/theories/C19/Diag.v) the code in
 # /repo is expected to be: False = the pinned prefixed_underline_span_with_text (iterates
@@ -506,6 +513,11 @@ def run(ctx):
         ctx.oblige(True)
     exe = core.build_harness("c19")
     mexe = core.build_model("c19")
+    # the in-tree example programs are built in the background (own target directory; a cold build takes 1-2 min)
+    pool = concurrent.futures.ThreadPoolExecutor(max_workers=1)
+    ex_pkgs = ["calc_manual_lex"] if ctx.quick else sorted(c19_ext.EXAMPLES)
+    ex_limit = int(os.environ.get("GV_C19_EXAMPLES_BUILD_LIMIT", "240" if ctx.quick else "2400"))
+    ex_fut = pool.submit(c19_ext.build_examples, ex_pkgs, ex_limit)
     rng = ctx.rng
     cases = []
     # corpus first
@@ -592,6 +604,10 @@ def run(ctx):
     diag_part(ctx, exe, mexe)
     conflicts_part(ctx, exe, mexe)
     errpp_part(ctx, exe, mexe)
+    c19_ext.added_conflicts_part(ctx, exe, core.build_harness("c19", "debug"), mexe)
+    c19_ext.unfed_part(ctx, exe, core.build_harness("c19", "debug"), mexe)
+    c19_ext.examples_part(ctx, mexe, ex_fut)
+    pool.shutdown(wait=False)
     ctx.coverage["rule"] = ("all texts over {a,é,♠,\\n,\\r} up to length %d with the whole-text feed and %d random chunking(s), "
                             "plus random longer texts incl. 4-byte chars; every byte offset (line), every char boundary "
                             "(line,col), every boundary span; non-trivial = text has a newline and a multi-byte char or CR; "
